@@ -449,7 +449,7 @@ func ruleReadonly(scope func(tok string, cmd *GCmd) bool) func(*Ctx) {
 			h := hs[tok]
 			var first *MutSite
 			cnt := 0
-			for f := range c.M.Reach(h) {
+			for f := range c.M.ReachRO(h) {
 				for _, s := range mm.sites[f] {
 					cnt++
 					if first == nil || s.key() < first.key() {
